@@ -134,36 +134,7 @@ Definition m3u_guard (fs : node) (base p : path) : res gexn bool :=
 
 (* ------------------------------------------------------------------ uri -> path *)
 
-(* urllib.parse.unquote_to_bytes on a str: UTF-8 encode, then %XX -> byte *)
-Definition utf8 (c : Z) : list Z :=
-  if c <? 128 then [c]
-  else if c <? 2048 then [192 + c / 64; 128 + c mod 64]
-  else if c <? 65536 then [224 + c / 4096; 128 + (c / 64) mod 64; 128 + c mod 64]
-  else [240 + c / 262144; 128 + (c / 4096) mod 64; 128 + (c / 64) mod 64; 128 + c mod 64].
-Definition hexval (c : Z) : option Z :=
-  if (48 <=? c) && (c <=? 57) then Some (c - 48)
-  else if (65 <=? c) && (c <=? 70) then Some (c - 55)
-  else if (97 <=? c) && (c <=? 102) then Some (c - 87)
-  else None.
-Fixpoint unquote (s : list Z) : list Z :=
-  match s with
-  | [] => []
-  | c :: t =>
-      if c =? 37 then
-        match t with
-        | a :: t' =>
-            match t' with
-            | b :: t'' =>
-                match hexval a, hexval b with
-                | Some x, Some y => (16 * x + y) :: unquote t''
-                | _, _ => c :: unquote t
-                end
-            | [] => c :: unquote t
-            end
-        | [] => [c]
-        end
-      else c :: unquote t
-  end.
+(* utf8, hexval, unquote: see M3u.v *)
 Definition unquote_to_bytes (s : str) : list Z := unquote (flat_map utf8 s).
 
 (* pathlib.PurePosixPath(bytes.decode(surrogateescape)): split at '/', drop "" and "." *)
